@@ -32,6 +32,20 @@ fn prepared(text: &str) -> Evaluator {
   dmntk_feel_evaluator::prepare(&node).unwrap_or_else(|e| panic!("cannot build {}: {}", text, e))
 }
 
+/// `a in <unary tests>`: the tests are parsed with the unary-tests start symbol (as the input entries of a
+/// decision table are), the `In` node is built as the decision table builder builds it.
+fn prepared_in(tests: &str) -> Evaluator {
+  let mut ctx = FeelContext::default();
+  for n in ["a", "b", "c"] {
+    ctx.set_entry(&Name::from(n), Value::Null(None));
+  }
+  let scope: Scope = ctx.into();
+  let left = dmntk_feel_parser::parse_expression(&scope, "a", false).unwrap_or_else(|e| panic!("cannot parse a: {}", e));
+  let right = dmntk_feel_parser::parse_unary_tests(&scope, tests, false).unwrap_or_else(|e| panic!("cannot parse {}: {}", tests, e));
+  let node = dmntk_feel::AstNode::In(Box::new(left), Box::new(right));
+  dmntk_feel_evaluator::prepare(&node).unwrap_or_else(|e| panic!("cannot build a in {}: {}", tests, e))
+}
+
 fn scope_of(vals: &[(&str, &Value)]) -> Scope {
   let mut ctx = FeelContext::default();
   for (n, v) in vals {
@@ -220,6 +234,19 @@ pub fn run(cfg: &Cfg) -> Report {
     ("le", "a <= b", prepared("a <= b")),
     ("gt", "a > b", prepared("a > b")),
     ("ge", "a >= b", prepared("a >= b")),
+    // unary tests, positive and negated (decision table input entries)
+    ("in_eq", "a in (b)", prepared_in("b")),
+    ("in_lt", "a in (< b)", prepared_in("< b")),
+    ("in_le", "a in (<= b)", prepared_in("<= b")),
+    ("in_gt", "a in (> b)", prepared_in("> b")),
+    ("in_ge", "a in (>= b)", prepared_in(">= b")),
+    ("nin_eq", "a in not(b)", prepared_in("not(b)")),
+    ("nin_lt", "a in not(< b)", prepared_in("not(< b)")),
+    ("nin_le", "a in not(<= b)", prepared_in("not(<= b)")),
+    ("nin_gt", "a in not(> b)", prepared_in("not(> b)")),
+    ("nin_ge", "a in not(>= b)", prepared_in("not(>= b)")),
+    ("nin_two", "a in not(< b, >= b)", prepared_in("not(< b, >= b)")),
+    ("in_two", "a in (< b, >= b)", prepared_in("< b, >= b")),
   ];
   let ev_between = prepared("a between b and c");
   let ev_in = [
